@@ -159,6 +159,15 @@ pub fn policy_of(suite: &str) -> Option<seqx::Policy> {
 
 /// A task that spawns a child and aborts its own command in the same poll, alone and with other tasks
 /// still queued behind it in the pass (the child is in the spawn queue when the abort is noticed).
+/// A join handle polled dozens of times while pending (see `P::JoinBusy`), alone and under combinators.
+pub fn join_busy_programs() -> Vec<P> {
+    let x = || P::JoinBusy(s0(), s0());
+    vec![x(), P::All(vec![x(), P::Req(s0())]), P::then(x(), P::Req(s0())), P::then(P::Req(s0()), x()), P::MapEvent(Box::new(x())), P::and(x(), P::Stream(s0())), P::All(vec![x(), x()])]
+        .into_iter()
+        .map(P::normalized)
+        .collect()
+}
+
 pub fn spawn_then_self_abort_programs() -> Vec<P> {
     let x = || P::SpawnThenSelfAbort(s0(), s0());
     let progs = vec![
@@ -436,6 +445,7 @@ fn suites_tree(id: &str, tier: Tier) -> Vec<Suite> {
         }
         "C04" => {
             let mut v = vec![Suite { name: "terms", host: HostKind::Direct, programs: plain(3), bounds: bounds(tier.pick(6, 8), 0, 1, 1, 2) }];
+            v.push(Suite { name: "terms/join-handle-polled-often", host: HostKind::Direct, programs: join_busy_programs(), bounds: bounds(tier.pick(6, 8), 0, 1, 1, 2) });
             if !q {
                 v.push(Suite { name: "terms/4-nodes", host: HostKind::Direct, programs: plain(4), bounds: bounds(6, 0, 1, 1, 2) });
                 let basic = dsl::basic_atoms();
@@ -533,6 +543,8 @@ fn suites_tree(id: &str, tier: Tier) -> Vec<Suite> {
                 Suite { name: "done-iff-nothing-left", host: HostKind::Direct, programs: progs, bounds: bounds(tier.pick(6, 9), 0, tier.pick(1, 2), 1, 2) },
                 Suite { name: "done-iff-nothing-left/aborts", host: HostKind::Direct, programs: with_abort(2), bounds: bounds(tier.pick(7, 9), 1, 1, 1, 2) },
                 Suite { name: "done-iff-nothing-left/spawn-then-self-abort", host: HostKind::Direct, programs: spawn_then_self_abort_programs(), bounds: bounds(tier.pick(7, 9), 0, 2, 1, 2) },
+                Suite { name: "done-iff-nothing-left/join-handle-polled-often", host: HostKind::Direct, programs: join_busy_programs(), bounds: bounds(tier.pick(7, 9), 0, 2, 1, 2) },
+                Suite { name: "done-iff-nothing-left/join-handle-polled-often", host: HostKind::StreamPoll, programs: join_busy_programs(), bounds: bounds(tier.pick(7, 9), 0, 2, 1, 2) },
                 Suite { name: "done-iff-nothing-left/spawn-then-self-abort", host: HostKind::StreamPoll, programs: spawn_then_self_abort_programs(), bounds: bounds(tier.pick(7, 9), 0, 2, 1, 2) },
                 Suite { name: "done-iff-nothing-left/hand-driven-nested-command", host: HostKind::Direct, programs: join_hosted_programs(tier == Tier::Thorough), bounds: bounds(tier.pick(6, 8), 1, 1, 1, 2) },
                 Suite { name: "done-iff-nothing-left/hand-driven-nested-command", host: HostKind::StreamPoll, programs: join_hosted_programs(tier == Tier::Thorough), bounds: bounds(tier.pick(6, 8), 1, 1, 1, 2) },
